@@ -94,6 +94,12 @@ var wasmModes = []wasmMode{
 	}, func(c *tok.Conc) []gtree.Option {
 		return append((&real.Branches{LD: c.LD, LI: c.LI, MD: c.MD, MI: c.MI}).Opts(), gtree.WithDryRun(), gtree.WithFileExtensions(c17Ext(c)))
 	}, func(d *DocState, c *tok.Conc) (string, bool) { return "", false }},
+	// both options in one call: the dry-run report wins over the encoding in the default build, so it must in the other
+	{"json+dry-run", func(c *tok.Conc) wproto.Req {
+		return wproto.Req{Op: "output", Format: "json", DryRun: true, Exts: c17Ext(c)}
+	}, func(c *tok.Conc) []gtree.Option {
+		return []gtree.Option{gtree.WithEncodeJSON(), gtree.WithDryRun(), gtree.WithFileExtensions(c17Ext(c))}
+	}, func(d *DocState, c *tok.Conc) (string, bool) { return "", false }},
 }
 
 func checkWasmState(r *evid.Run, pool *wproto.Pool, d *DocState, concs []*tok.Conc) {
@@ -184,11 +190,11 @@ func checkC17(r *evid.Run) {
 	c17Random(r, pool)
 	r.Set("tinywasm_worker_deaths", pool.Deaths())
 	r.Set("exhaustive", true)
-	r.Set("rule", "C01's well-formed documents and C02's line-pool documents (malformed included), each run through the default build and the tinywasm build (a second process compiled with -tags tinywasm) in 4 modes: text, custom branch strings, JSON, dry-run with an extension; decisions compared with each other and with the specification, bytes compared when accepted; non-trivial = at least 2 lines")
+	r.Set("rule", "C01's well-formed documents and C02's line-pool documents (malformed included), each run through the default build and the tinywasm build (a second process compiled with -tags tinywasm) in 5 modes: text, custom branch strings, JSON, dry-run with an extension, JSON and dry run in one call; decisions compared with each other and with the specification, bytes compared when accepted; non-trivial = at least 2 lines")
 }
 
 // c17Random: random documents (wide and deep forests, every spelling, injected malformations incl. a
-// jump right after a dedent), default build vs tinywasm build, in the four claimed modes.
+// jump right after a dedent), default build vs tinywasm build, in the claimed modes.
 func c17Random(r *evid.Run, pool *wproto.Pool) {
 	n := 600
 	if r.Tier == "thorough" {
